@@ -134,6 +134,23 @@ def h_sort(ctx):
     ctx.observe("sorted", acl.line)
     ctx.reach(order)
     cl("sort-restores-numbered-order", Not_(acl.line == numbered))
+    if order != "resequence-then-group":
+        # sorting reorders the top-level items and nothing else: same number of items, same blocks; and it keeps doing so when
+        # applied again (descending, then ascending) - a block, incl. the heading-less leading one, stays a unit throughout
+        def shape_of(a):
+            return [[x.line for x in it.items] if it.__class__.__name__ == "AceGroup" else [it.line] for it in a.items]
+
+        def differs(got, want):
+            if len(got) != len(want) or any(len(g) != len(w) for g, w in zip(got, want)):
+                return True
+            return Not_(And_([a == b for g, w in zip(got, want) for a, b in zip(g, w)]))
+        cl("sort-keeps-blocks", differs(shape_of(acl), blocks))
+        acl.sort(reverse=True)
+        ctx.observe("descending", acl.line)
+        cl("descending-sort-keeps-blocks", differs(shape_of(acl), list(reversed(blocks))))
+        acl.sort()
+        cl("second-sort-restores-numbered-order", Not_(acl.line == numbered))
+        cl("second-sort-keeps-blocks", differs(shape_of(acl), blocks))
     cl.done()
     return None
 
